@@ -2,4 +2,556 @@
 import KB.Sys
 import KB.Lemmas.Coder
 namespace KB
+
+/-! ### Revisions owned by a client -/
+
+/-- The revision a request has been dealt but not yet reported to the sequencer
+(`C04.inflightRev` on the program counter). -/
+def Pc.inflight : Pc → Option Nat
+  | .createCommit r => some r
+  | .createReread r => some r
+  | .createRetry r => some r
+  | .createOver r _ => some r
+  | .updateCommit r => some r
+  | .deleteCommit r _ _ => some r
+  | _ => none
+
+/-- The revision a request has been dealt and will return with: in flight, or already reported
+and waiting in `readLatest`. -/
+def Pc.held : Pc → Option Nat
+  | .readLatest r _ => some r
+  | pc => pc.inflight
+
+theorem Pc.held_of_inflight {pc : Pc} {r : Nat} (h : pc.inflight = some r) : pc.held = some r := by
+  cases pc <;> simp_all [Pc.held, Pc.inflight]
+
+theorem Pc.held_cases {pc : Pc} {r : Nat} (h : pc.held = some r) :
+    pc.inflight = some r ∨ ∃ fb, pc = .readLatest r fb := by
+  cases pc <;> simp_all [Pc.held, Pc.inflight]
+
+theorem Pc.inflight_none_of_held {pc : Pc} (h : pc.held = none) : pc.inflight = none := by
+  cases pc <;> simp_all [Pc.held, Pc.inflight]
+
+theorem Pc.not_rl_of_inflight {pc : Pc} {r : Nat} (h : pc.inflight = some r) (r' : Nat)
+    (fb : Option (Bytes × Bytes × Nat)) : pc ≠ .readLatest r' fb := by
+  cases pc <;> simp_all [Pc.inflight]
+
+/-! ### The part of the state the sequencing invariants talk about -/
+
+structure View where
+  dealt : Nat
+  committed : Nat
+  slots : List WEvent
+  clients : List Client
+  done : List Done
+
+def G.view (g : G) : View := ⟨g.dealt, g.committed, g.slots, g.clients, g.done⟩
+
+def View.setC (v : View) (c : Client) : View :=
+  { v with clients := v.clients.map (fun x => if x.id == c.id then c else x) }
+
+def View.setPc (v : View) (c : Client) (pc : Pc) : View := v.setC { c with pc := pc }
+
+def View.deal (v : View) : View := { v with dealt := v.dealt + 1 }
+
+def View.push (v : View) (w : WEvent) : View :=
+  if w.rev == 0 then v else { v with slots := v.slots ++ [w] }
+
+def View.fin (v : View) (c : Client) (res : WriteRes) (rev : Nat) : View :=
+  { v with clients := v.clients.filter (·.id != c.id),
+           done := v.done ++ [{ id := c.id, kind := c.kind, res := res, rev := rev,
+                                beginDealt := c.beginDealt, endDealt := v.dealt }] }
+
+def View.consume (v : View) (w : WEvent) : View :=
+  { v with committed := w.rev, dealt := max v.dealt w.rev,
+           slots := v.slots.filter (fun x => x.rev != w.rev) }
+
+def View.spawn (v : View) (id : Nat) (kind : ReqKind) : View :=
+  { v with clients := v.clients ++ [{ id := id, kind := kind, pc := .start, beginDealt := v.dealt }] }
+
+theorem View.push_of_ne {v : View} {w : WEvent} (h : w.rev ≠ 0) :
+    v.push w = { v with slots := v.slots ++ [w] } := by
+  simp [View.push, h]
+
+theorem mem_setPc {l : List Client} {c : Client} {pc : Pc} {x : Client} :
+    x ∈ l.map (fun y => if y.id == c.id then { c with pc := pc } else y) ↔
+      (x = { c with pc := pc } ∧ ∃ y ∈ l, y.id = c.id) ∨ (x ∈ l ∧ x.id ≠ c.id) := by
+  simp only [List.mem_map]
+  constructor
+  · rintro ⟨y, hy, rfl⟩
+    by_cases h : y.id = c.id
+    · left; simp [h]; exact ⟨y, hy, h⟩
+    · right; simp [h, hy]
+  · rintro (⟨rfl, y, hy, h⟩ | ⟨hx, h⟩)
+    · exact ⟨y, hy, by simp [h]⟩
+    · exact ⟨x, hx, by simp [h]⟩
+
+theorem mem_fin {l : List Client} {c x : Client} :
+    x ∈ l.filter (·.id != c.id) ↔ x ∈ l ∧ x.id ≠ c.id := by
+  simp [List.mem_filter]
+
+/-- Sequencing invariant. -/
+structure SInv (v : View) : Prop where
+  le : v.committed ≤ v.dealt
+  slotR : ∀ w ∈ v.slots, v.committed < w.rev ∧ w.rev ≤ v.dealt
+  idU : ∀ c1 ∈ v.clients, ∀ c2 ∈ v.clients, c1.id = c2.id → c1 = c2
+  cBegin : ∀ c ∈ v.clients, c.beginDealt ≤ v.dealt
+  heldR : ∀ c ∈ v.clients, ∀ r, c.pc.held = some r → c.beginDealt < r ∧ r ≤ v.dealt
+  inflR : ∀ c ∈ v.clients, ∀ r, c.pc.inflight = some r → v.committed < r
+  heldU : ∀ c1 ∈ v.clients, ∀ c2 ∈ v.clients, ∀ r, c1.pc.held = some r → c2.pc.held = some r → c1 = c2
+  slotInfl : ∀ w ∈ v.slots, ∀ c ∈ v.clients, c.pc.inflight ≠ some w.rev
+  cover : ∀ r, v.committed < r → r ≤ v.dealt →
+    (∃ w ∈ v.slots, w.rev = r) ∨ (∃ c ∈ v.clients, c.pc.inflight = some r)
+  rlRes : ∀ c ∈ v.clients, ∀ r fb, c.pc = .readLatest r fb → r ≤ v.committed ∨ ∃ w ∈ v.slots, w.rev = r
+
+theorem SInv.inflD {v : View} (h : SInv v) : ∀ c ∈ v.clients, ∀ r, c.pc.inflight = some r →
+    c.beginDealt < r ∧ r ≤ v.dealt :=
+  fun c hc r hr => h.heldR c hc r (Pc.held_of_inflight hr)
+
+theorem SInv.inflU {v : View} (h : SInv v) : ∀ c1 ∈ v.clients, ∀ c2 ∈ v.clients, ∀ r,
+    c1.pc.inflight = some r → c2.pc.inflight = some r → c1 = c2 :=
+  fun c1 h1 c2 h2 r hr1 hr2 => h.heldU c1 h1 c2 h2 r (Pc.held_of_inflight hr1) (Pc.held_of_inflight hr2)
+
+/-- A1: deal the next revision to a client that holds none. -/
+theorem SInv.dealTo {v : View} (h : SInv v) {c : Client} (hc : c ∈ v.clients) (hn : c.pc.held = none)
+    {pc : Pc} (hp : pc.inflight = some (v.dealt + 1)) : SInv (v.deal.setPc c pc) := by
+  have hph := Pc.held_of_inflight hp
+  have hni := Pc.inflight_none_of_held hn
+  have hrl := Pc.not_rl_of_inflight hp
+  have inflD := h.inflD
+  have inflU := h.inflU
+  obtain ⟨le, slotR, idU, cBegin, heldR, inflR, heldU, slotInfl, cover, rlRes⟩ := h
+  constructor <;> simp only [View.setPc, View.setC, View.deal, mem_setPc] <;> grind
+
+/-- A2: a client moves on keeping what it holds (not into `readLatest`). -/
+theorem SInv.move {v : View} (h : SInv v) {c : Client} (hc : c ∈ v.clients)
+    {pc : Pc} (hi : pc.inflight = c.pc.inflight) (hh : pc.held = c.pc.held)
+    (hrl : ∀ r fb, pc ≠ .readLatest r fb) : SInv (v.setPc c pc) := by
+  have inflD := h.inflD
+  have inflU := h.inflU
+  obtain ⟨le, slotR, idU, cBegin, heldR, inflR, heldU, slotInfl, cover, rlRes⟩ := h
+  constructor <;> simp only [View.setPc, View.setC, mem_setPc] <;> grind
+
+/-- A3: an in-flight client reports its revision and goes on to read the latest value. -/
+theorem SInv.report {v : View} (h : SInv v) {c : Client} (hc : c ∈ v.clients) {w : WEvent}
+    (hi : c.pc.inflight = some w.rev) (fb : Option (Bytes × Bytes × Nat)) :
+    SInv ((v.push w).setPc c (.readLatest w.rev fb)) := by
+  have hw : w.rev ≠ 0 := by
+    have := h.inflR c hc _ hi
+    omega
+  have h1 : (Pc.readLatest w.rev fb).held = some w.rev := rfl
+  have h2 : (Pc.readLatest w.rev fb).inflight = none := rfl
+  have h3 := Pc.held_of_inflight hi
+  have inflD := h.inflD
+  have inflU := h.inflU
+  obtain ⟨le, slotR, idU, cBegin, heldR, inflR, heldU, slotInfl, cover, rlRes⟩ := h
+  rw [View.push_of_ne hw]
+  constructor <;> simp only [View.setPc, View.setC, mem_setPc, List.mem_append, List.mem_singleton] <;> grind
+
+/-- A4: a client in `readLatest` returns. -/
+theorem SInv.ret {v : View} (h : SInv v) {c : Client} (hc : c ∈ v.clients) {r : Nat}
+    {fb : Option (Bytes × Bytes × Nat)} (hp : c.pc = .readLatest r fb) (res : WriteRes) :
+    SInv (v.fin c res r) := by
+  have h2 : c.pc.inflight = none := by rw [hp]; rfl
+  have inflD := h.inflD
+  have inflU := h.inflU
+  obtain ⟨le, slotR, idU, cBegin, heldR, inflR, heldU, slotInfl, cover, rlRes⟩ := h
+  constructor <;> simp only [View.fin, mem_fin] <;> grind
+
+/-- The sequencer consumes the slot of `committed + 1`. -/
+theorem SInv.consume {v : View} (h : SInv v) {w : WEvent} (hw : w ∈ v.slots)
+    (hr : w.rev = v.committed + 1) : SInv (v.consume w) := by
+  have hm : ∀ x, x ∈ v.slots.filter (fun x => x.rev != w.rev) ↔ x ∈ v.slots ∧ x.rev ≠ w.rev := by
+    simp [List.mem_filter]
+  have := h.slotR w hw
+  have hd : max v.dealt w.rev = v.dealt := by omega
+  have inflD := h.inflD
+  have inflU := h.inflU
+  obtain ⟨le, slotR, idU, cBegin, heldR, inflR, heldU, slotInfl, cover, rlRes⟩ := h
+  constructor <;> simp only [View.consume, hm, hd] <;> grind
+
+/-- The retry loop deals a revision and reports it at once. -/
+theorem SInv.dealPush {v : View} (h : SInv v) {w : WEvent} (hr : w.rev = v.dealt + 1) :
+    SInv (v.deal.push w) := by
+  have hw : w.rev ≠ 0 := by omega
+  rw [View.push_of_ne hw]
+  have inflD := h.inflD
+  have inflU := h.inflU
+  obtain ⟨le, slotR, idU, cBegin, heldR, inflR, heldU, slotInfl, cover, rlRes⟩ := h
+  constructor <;> simp only [View.deal, List.mem_append, List.mem_singleton] <;> grind
+
+/-- A new request begins under an unused id. -/
+theorem SInv.spawn {v : View} (h : SInv v) {id : Nat} (hid : ∀ c ∈ v.clients, c.id ≠ id) (kind : ReqKind) :
+    SInv (v.spawn id kind) := by
+  have h1 : Pc.start.held = none := rfl
+  have h2 : Pc.start.inflight = none := rfl
+  have inflD := h.inflD
+  have inflU := h.inflU
+  obtain ⟨le, slotR, idU, cBegin, heldR, inflR, heldU, slotInfl, cover, rlRes⟩ := h
+  constructor <;> simp only [View.spawn, List.mem_append, List.mem_singleton] <;> grind
+
+/-! ### Finished requests -/
+
+set_option linter.unusedVariables false
+
+/-- Invariant of the ghost log of finished requests (relative to `SInv`). -/
+structure DInv (v : View) : Prop where
+  dR : ∀ d ∈ v.done, d.beginDealt < d.rev ∧ d.rev ≤ d.endDealt ∧ d.endDealt ≤ v.dealt
+  dRes : ∀ d ∈ v.done, d.rev ≤ v.committed ∨ ∃ w ∈ v.slots, w.rev = d.rev
+  dNodup : (v.done.map (·.rev)).Nodup
+  dHeld : ∀ d ∈ v.done, ∀ c ∈ v.clients, c.pc.held ≠ some d.rev
+
+theorem nodup_map_snoc {α β : Type} (f : α → β) (l : List α) (d : α) :
+    ((l ++ [d]).map f).Nodup ↔ (l.map f).Nodup ∧ ∀ x ∈ l, f x ≠ f d := by
+  simp only [List.map_append, List.map_cons, List.map_nil, List.nodup_append, List.mem_map,
+    List.mem_singleton, List.nodup_cons, List.not_mem_nil, not_false_eq_true, List.nodup_nil,
+    and_self, true_and, ne_eq, forall_exists_index, and_imp, forall_apply_eq_imp_iff₂, forall_eq]
+
+theorem DInv.dealTo {v : View} (hs : SInv v) (h : DInv v) {c : Client} (hc : c ∈ v.clients)
+    (hn : c.pc.held = none) {pc : Pc} (hp : pc.inflight = some (v.dealt + 1)) :
+    DInv (v.deal.setPc c pc) := by
+  have hph := Pc.held_of_inflight hp
+  obtain ⟨dR, dRes, dNodup, dHeld⟩ := h
+  constructor <;> simp only [View.setPc, View.setC, View.deal, mem_setPc] <;> grind
+
+theorem DInv.move {v : View} (hs : SInv v) (h : DInv v) {c : Client} (hc : c ∈ v.clients)
+    {pc : Pc} (hi : pc.inflight = c.pc.inflight) (hh : pc.held = c.pc.held)
+    (hrl : ∀ r fb, pc ≠ .readLatest r fb) : DInv (v.setPc c pc) := by
+  obtain ⟨dR, dRes, dNodup, dHeld⟩ := h
+  constructor <;> simp only [View.setPc, View.setC, mem_setPc] <;> grind
+
+theorem DInv.report {v : View} (hs : SInv v) (h : DInv v) {c : Client} (hc : c ∈ v.clients) {w : WEvent}
+    (hi : c.pc.inflight = some w.rev) (fb : Option (Bytes × Bytes × Nat)) :
+    DInv ((v.push w).setPc c (.readLatest w.rev fb)) := by
+  have hw : w.rev ≠ 0 := by
+    have := hs.inflR c hc _ hi
+    omega
+  have h1 : (Pc.readLatest w.rev fb).held = some w.rev := rfl
+  have h3 := Pc.held_of_inflight hi
+  rw [View.push_of_ne hw]
+  obtain ⟨dR, dRes, dNodup, dHeld⟩ := h
+  constructor <;> simp only [View.setPc, View.setC, mem_setPc, List.mem_append, List.mem_singleton] <;> grind
+
+theorem DInv.ret {v : View} (hs : SInv v) (h : DInv v) {c : Client} (hc : c ∈ v.clients) {r : Nat}
+    {fb : Option (Bytes × Bytes × Nat)} (hp : c.pc = .readLatest r fb) (res : WriteRes) :
+    DInv (v.fin c res r) := by
+  have h2 : c.pc.held = some r := by rw [hp]; rfl
+  obtain ⟨le, slotR, idU, cBegin, heldR, inflR, heldU, slotInfl, cover, rlRes⟩ := hs
+  obtain ⟨dR, dRes, dNodup, dHeld⟩ := h
+  constructor <;>
+    simp only [View.fin, mem_fin, nodup_map_snoc, List.mem_append, List.mem_singleton] <;> grind
+
+theorem DInv.consume {v : View} (hs : SInv v) (h : DInv v) {w : WEvent} (hw : w ∈ v.slots)
+    (hr : w.rev = v.committed + 1) : DInv (v.consume w) := by
+  have hm : ∀ x, x ∈ v.slots.filter (fun x => x.rev != w.rev) ↔ x ∈ v.slots ∧ x.rev ≠ w.rev := by
+    simp [List.mem_filter]
+  have := hs.slotR w hw
+  have hd : max v.dealt w.rev = v.dealt := by omega
+  obtain ⟨dR, dRes, dNodup, dHeld⟩ := h
+  constructor <;> simp only [View.consume, hm, hd] <;> grind
+
+theorem DInv.dealPush {v : View} (hs : SInv v) (h : DInv v) {w : WEvent} (hr : w.rev = v.dealt + 1) :
+    DInv (v.deal.push w) := by
+  have hw : w.rev ≠ 0 := by omega
+  rw [View.push_of_ne hw]
+  obtain ⟨dR, dRes, dNodup, dHeld⟩ := h
+  constructor <;> simp only [View.deal, List.mem_append, List.mem_singleton] <;> grind
+
+theorem DInv.spawn {v : View} (hs : SInv v) (h : DInv v) (id : Nat) (kind : ReqKind) :
+    DInv (v.spawn id kind) := by
+  have h1 : Pc.start.held = none := rfl
+  obtain ⟨dR, dRes, dNodup, dHeld⟩ := h
+  constructor <;> simp only [View.spawn, List.mem_append, List.mem_singleton] <;> grind
+
+/-! ### Generic preservation: any predicate closed under the atomic moves is preserved by `act` -/
+
+structure Closed (P : View → Prop) : Prop where
+  dealTo : ∀ {v : View} {c : Client} {pc : Pc}, P v → c ∈ v.clients → c.pc.held = none →
+    pc.inflight = some (v.dealt + 1) → P (v.deal.setPc c pc)
+  move : ∀ {v : View} {c : Client} {pc : Pc}, P v → c ∈ v.clients → pc.inflight = c.pc.inflight →
+    pc.held = c.pc.held → (∀ r fb, pc ≠ .readLatest r fb) → P (v.setPc c pc)
+  report : ∀ {v : View} {c : Client} {w : WEvent}, P v → c ∈ v.clients → c.pc.inflight = some w.rev →
+    ∀ fb, P ((v.push w).setPc c (.readLatest w.rev fb))
+  ret : ∀ {v : View} {c : Client} {r : Nat} {fb : Option (Bytes × Bytes × Nat)}, P v → c ∈ v.clients →
+    c.pc = .readLatest r fb → ∀ res, P (v.fin c res r)
+  consume : ∀ {v : View} {w : WEvent}, P v → w ∈ v.slots → w.rev = v.committed + 1 → P (v.consume w)
+  dealPush : ∀ {v : View} {w : WEvent}, P v → w.rev = v.dealt + 1 → P (v.deal.push w)
+  spawn : ∀ {v : View} {id : Nat}, P v → (∀ c ∈ v.clients, c.id ≠ id) → ∀ kind, P (v.spawn id kind)
+
+theorem SInv.closed : Closed SInv :=
+  ⟨fun h hc hn hp => h.dealTo hc hn hp, fun h hc hi hh hrl => h.move hc hi hh hrl, fun h hc hi fb => h.report hc hi fb, fun h hc hp res => h.ret hc hp res, fun h hw hr => h.consume hw hr,
+   fun h hr => h.dealPush hr, fun h hid kind => h.spawn hid kind⟩
+
+/-- The full invariant: sequencing and the finished-request log. -/
+def FInv (v : View) : Prop := SInv v ∧ DInv v
+
+theorem FInv.closed : Closed FInv :=
+  ⟨fun h hc hn hp => ⟨h.1.dealTo hc hn hp, h.2.dealTo h.1 hc hn hp⟩,
+   fun h hc hi hh hrl => ⟨h.1.move hc hi hh hrl, h.2.move h.1 hc hi hh hrl⟩,
+   fun h hc hi fb => ⟨h.1.report hc hi fb, h.2.report h.1 hc hi fb⟩,
+   fun h hc hp res => ⟨h.1.ret hc hp res, h.2.ret h.1 hc hp res⟩,
+   fun h hw hr => ⟨h.1.consume hw hr, h.2.consume h.1 hw hr⟩,
+   fun h hr => ⟨h.1.dealPush hr, h.2.dealPush h.1 hr⟩,
+   fun h hid kind => ⟨h.1.spawn hid kind, h.2.spawn h.1 _ kind⟩⟩
+
+/-! View algebra -/
+
+theorem View.push_clients (v : View) (w : WEvent) : (v.push w).clients = v.clients := by
+  unfold View.push; split <;> rfl
+
+theorem View.push_setPc (v : View) (c : Client) (pc : Pc) (w : WEvent) :
+    (v.setPc c pc).push w = (v.push w).setPc c pc := by
+  unfold View.push; split <;> rfl
+
+theorem filter_setPc (l : List Client) (c : Client) (pc : Pc) :
+    (l.map (fun x => if x.id == c.id then { c with pc := pc } else x)).filter (·.id != c.id) =
+      l.filter (·.id != c.id) := by
+  induction l with
+  | nil => rfl
+  | cons x xs ih =>
+    by_cases h : x.id = c.id <;> simp_all
+
+theorem View.fin_setPc (v : View) (c : Client) (pc pc' : Pc) (res : WriteRes) (r : Nat) :
+    (v.setPc c pc).fin { c with pc := pc' } res r = v.fin c res r := by
+  simp only [View.fin, View.setPc, View.setC, filter_setPc]
+
+theorem View.setPc_setPc (v : View) (c : Client) (pc pc' : Pc) :
+    (v.setPc c pc).setPc { c with pc := pc } pc' = v.setPc c pc' := by
+  simp only [View.setPc, View.setC, List.map_map]
+  congr 1
+  apply List.map_congr_left
+  intro x _
+  by_cases h : x.id = c.id <;> simp [h]
+
+theorem mem_setPc_self {v : View} {c : Client} (hc : c ∈ v.clients) (pc : Pc) :
+    { c with pc := pc } ∈ (v.setPc c pc).clients :=
+  mem_setPc.mpr (Or.inl ⟨rfl, c, hc, rfl⟩)
+
+section
+variable {P : View → Prop} (H : Closed P)
+include H
+
+/-- report and return -/
+theorem Closed.reportFin {v : View} {c : Client} {w : WEvent} (hv : P v) (hc : c ∈ v.clients)
+    (hi : c.pc.inflight = some w.rev) (res : WriteRes) : P ((v.push w).fin c res w.rev) := by
+  have h1 := H.report hv hc hi none
+  have hm : { c with pc := .readLatest w.rev none } ∈ ((v.push w).setPc c (.readLatest w.rev none)).clients :=
+    mem_setPc_self (by rw [View.push_clients]; exact hc) _
+  have h2 := H.ret h1 hm rfl res
+  rwa [View.fin_setPc] at h2
+
+/-- deal, report, return -/
+theorem Closed.dealFin {v : View} {c : Client} {w : WEvent} (hv : P v) (hc : c ∈ v.clients)
+    (hn : c.pc.held = none) (hr : w.rev = v.dealt + 1) (res : WriteRes) :
+    P ((v.deal.push w).fin c res (v.dealt + 1)) := by
+  have h1 := H.dealTo (pc := .createCommit (v.dealt + 1)) hv hc hn rfl
+  have h2 := H.reportFin (w := w) h1 (mem_setPc_self hc _) (by rw [hr]; rfl) res
+  rwa [View.push_setPc, View.fin_setPc, hr] at h2
+
+/-- deal, report, go on to read the latest value -/
+theorem Closed.dealReport {v : View} {c : Client} {w : WEvent} (hv : P v) (hc : c ∈ v.clients)
+    (hn : c.pc.held = none) (hr : w.rev = v.dealt + 1) (fb : Option (Bytes × Bytes × Nat)) :
+    P ((v.deal.push w).setPc c (.readLatest (v.dealt + 1) fb)) := by
+  have h1 := H.dealTo (pc := .createCommit (v.dealt + 1)) hv hc hn rfl
+  have h2 := H.report (w := w) h1 (mem_setPc_self hc _) (by rw [hr]; rfl) fb
+  rwa [View.push_setPc, View.setPc_setPc, hr] at h2
+
+end
+
+/-! ### Matching the steps of `KB.Sys` to the atomic moves -/
+
+theorem view_setClient (g : G) (c : Client) : (g.setClient c).view = g.view.setC c := rfl
+theorem view_notify (g : G) (w : WEvent) : (g.notify w).view = g.view.push w := by
+  unfold G.notify View.push; split <;> rfl
+theorem view_finish (g : G) (c : Client) (res : WriteRes) (rev : Nat) :
+    (g.finish c res rev).view = g.view.fin c res rev := rfl
+theorem view_ite_log (b : Prop) [Decidable b] (g : G) (k : Bytes) (r : Nat) (v : Option Bytes) (e : Expect) :
+    (if b then g.logWrite k r v e else g).view = g.view := by
+  split <;> rfl
+
+section
+variable {P : View → Prop} (H : Closed P)
+include H
+
+theorem finishCreate_P {g : G} {c : Client} {rev : Nat} (hv : P g.view) (hc : c ∈ g.view.clients)
+    (hi : c.pc.inflight = some rev) (key val : Bytes) (r : CommitRes) :
+    P (finishCreate g c key val rev r).view := by
+  obtain ⟨id, kind, pc, bd⟩ := c
+  have hw : ∀ a b, (mkW rev 0 a .create key val b).rev = rev := fun _ _ => rfl
+  cases r <;> try cases kind
+  all_goals simp only [finishCreate, view_finish, view_notify, view_setClient]
+  all_goals first
+    | exact H.reportFin (w := mkW rev 0 _ .create key val _) hv hc hi _
+    | exact H.report (w := mkW rev 0 _ .create key val _) hv hc hi _
+
+theorem createSawIndex_P {g : G} {c : Client} {rev : Nat} (hv : P g.view) (hc : c ∈ g.view.clients)
+    (hi : c.pc.inflight = some rev) (hh : c.pc.held = some rev) (key val old : Bytes) :
+    P (createSawIndex g c key val rev old).view := by
+  unfold createSawIndex
+  split
+  · exact finishCreate_P H hv hc hi key val _
+  · split
+    · rw [view_setClient]
+      exact H.move hv hc (by rw [hi]; rfl) (by rw [hh]; rfl) (by intro _ _ h; cases h)
+    · exact finishCreate_P H hv hc hi key val _
+
+theorem stepClient_P {g : G} {c : Client} (f : Fault) (hv : P g.view) (hc : c ∈ g.view.clients) :
+    P (stepClient g c f).view := by
+  obtain ⟨id, kind, pc, bd⟩ := c
+  cases pc with
+  | start =>
+    cases kind with
+    | create k v =>
+      simp only [stepClient, view_setClient]
+      exact H.dealTo (pc := .createCommit (g.dealt + 1)) hv hc rfl rfl
+    | update k v e =>
+      simp only [stepClient]
+      split
+      · rw [view_setClient]; exact H.dealTo (pc := .createCommit (g.dealt + 1)) hv hc rfl rfl
+      · split
+        · rw [view_finish, view_notify]
+          exact H.dealFin (w := mkW (g.dealt + 1) e false .put k v) hv hc rfl rfl _
+        · rw [view_setClient]; exact H.dealTo (pc := .updateCommit (g.dealt + 1)) hv hc rfl rfl
+    | delete k e =>
+      simp only [stepClient]
+      split <;> (rw [view_setClient]; exact H.move hv hc rfl rfl (by intro _ _ h; cases h))
+  | createCommit rev =>
+    cases kind <;> simp only [stepClient] <;> split
+    all_goals first
+      | (split
+         · exact createSawIndex_P H (by rw [view_ite_log]; exact hv) (by rw [view_ite_log]; exact hc) rfl rfl _ _ _
+         · rw [view_setClient, view_ite_log]
+           exact H.move (pc := .createReread rev) hv hc rfl rfl (by intro _ _ h; cases h))
+      | exact finishCreate_P H (by rw [view_ite_log]; exact hv) (by rw [view_ite_log]; exact hc) rfl _ _ _
+  | createReread rev =>
+    cases kind <;> simp only [stepClient] <;> split
+    all_goals first
+      | exact createSawIndex_P H hv hc rfl rfl _ _ _
+      | (rw [view_setClient]; exact H.move (pc := .createRetry rev) hv hc rfl rfl (by intro _ _ h; cases h))
+  | createRetry rev =>
+    cases kind <;> simp only [stepClient] <;>
+      exact finishCreate_P H (by rw [view_ite_log]; exact hv) (by rw [view_ite_log]; exact hc) rfl _ _ _
+  | createOver rev old =>
+    cases kind <;> simp only [stepClient] <;>
+      exact finishCreate_P H (by rw [view_ite_log]; exact hv) (by rw [view_ite_log]; exact hc) rfl _ _ _
+  | updateCommit rev =>
+    cases kind with
+    | update k v e =>
+      simp only [stepClient]
+      split
+      · rw [view_finish, view_notify, view_ite_log]
+        exact H.reportFin (w := mkW rev e _ .put k v _) hv hc rfl _
+      · rw [view_setClient, view_notify, view_ite_log]
+        exact H.report (w := mkW rev e _ .put k v _) hv hc rfl _
+      · rw [view_finish, view_notify, view_ite_log]
+        exact H.reportFin (w := mkW rev e _ .put k v _) hv hc rfl _
+    | _ => simp only [stepClient]; exact hv
+  | deleteDeal o =>
+    cases kind with
+    | delete k e =>
+      cases o with
+      | none =>
+        simp only [stepClient, view_finish, view_notify]
+        exact H.dealFin (w := mkW (g.dealt + 1) 0 false .delete k []) hv hc rfl rfl _
+      | some p =>
+        obtain ⟨ov, m⟩ := p
+        simp only [stepClient]
+        split
+        · rw [view_finish, view_notify]
+          exact H.dealFin (w := mkW (g.dealt + 1) m false .delete k ov) hv hc rfl rfl _
+        · split
+          · rw [view_setClient, view_notify]
+            exact H.dealReport (w := mkW (g.dealt + 1) m false .delete k ov) hv hc rfl rfl _
+          · split
+            · rw [view_finish, view_notify]
+              exact H.dealFin (w := mkW (g.dealt + 1) m false .delete k ov) hv hc rfl rfl _
+            · rw [view_setClient]
+              exact H.dealTo (pc := .deleteCommit (g.dealt + 1) ov m) hv hc rfl rfl
+    | _ => cases o <;> simp only [stepClient] <;> exact hv
+  | deleteCommit rev ov m =>
+    cases kind with
+    | delete k e =>
+      simp only [stepClient]
+      split
+      · rw [view_finish, view_notify, view_ite_log]
+        exact H.reportFin (w := mkW rev m _ .delete k ov _) hv hc rfl _
+      · rw [view_setClient, view_notify, view_ite_log]
+        exact H.report (w := mkW rev m _ .delete k ov _) hv hc rfl _
+      · rw [view_finish, view_notify, view_ite_log]
+        exact H.reportFin (w := mkW rev m _ .delete k ov _) hv hc rfl _
+    | _ => simp only [stepClient]; exact hv
+  | readLatest rev fb =>
+    cases kind <;> simp only [stepClient] <;> split <;> exact H.ret hv hc rfl _
+
+end
+section
+variable {P : View → Prop} (H : Closed P)
+include H
+
+theorem stepSeq_P {g : G} (hv : P g.view) : P (stepSeq g).view := by
+  unfold stepSeq
+  split
+  · exact hv
+  · rename_i w hw
+    have h1 := List.mem_of_find?_eq_some hw
+    have h2 := List.find?_some hw
+    have h3 : w.rev = g.committed + 1 := by simpa using h2
+    exact H.consume hv h1 h3
+
+theorem stepRetry_P {g : G} (f : Fault) (hv : P g.view) : P (stepRetry g f).view := by
+  unfold stepRetry
+  split
+  · exact hv
+  · split
+    · exact hv
+    · split
+      · exact hv
+      · simp only [view_notify, view_ite_log]
+        exact H.dealPush hv rfl
+
+theorem act_P {g : G} (a : Action) (hv : P g.view) : P (act g a).view := by
+  cases a with
+  | «begin» id kind =>
+    simp only [act]
+    split
+    · exact hv
+    · rename_i h
+      refine H.spawn hv ?_ kind
+      intro c hc hid
+      apply h
+      simp only [G.client, List.find?_isSome]
+      exact ⟨c, hc, by simp [hid]⟩
+  | step id f =>
+    simp only [act]
+    split
+    · exact hv
+    · rename_i c hc
+      exact stepClient_P H f hv (List.mem_of_find?_eq_some hc)
+  | seq => exact stepSeq_P H hv
+  | retry f => exact stepRetry_P H f hv
+
+
+theorem run_P {g : G} (sched : List Action) (hv : P g.view) : P (run g sched).view := by
+  induction sched generalizing g with
+  | nil => exact hv
+  | cons a as ih => exact ih (act_P H a hv)
+
+/-- Invariance principle for `Reachable`. -/
+theorem Reachable.closed {g0 g : G} (hr : Reachable g0 g) (hv : P g0.view) : P g.view := by
+  obtain ⟨sched, rfl⟩ := hr
+  exact run_P H sched hv
+
+end
+
+theorem SInv.init {g : G} (h1 : g.committed = g.dealt) (h2 : g.slots = []) (h3 : g.clients = []) :
+    SInv g.view := by
+  constructor <;> simp [G.view, h1, h2, h3]
+
+theorem DInv.init {g : G} (h : g.done = []) : DInv g.view := by
+  constructor <;> simp [G.view, h]
+
+theorem Reachable.step {g0 g : G} (hr : Reachable g0 g) (a : Action) : Reachable g0 (act g a) := by
+  obtain ⟨sched, rfl⟩ := hr
+  exact ⟨sched ++ [a], by simp [run, List.foldl_append]⟩
+
 end KB
